@@ -28,6 +28,7 @@ func init() {
 			{"C03-R2", "SotW / delta sibling agreement", c03r2},
 			{"C03-R3", "CDS implies EDS on delta", c03r3},
 			{"C03-R4", "removal bookkeeping shape", c03r4},
+			{"C03-R4b", "EDS reports delta semantics exactly when it may omit unchanged clusters", c03r4b},
 			{"C03-R5", "generator-managed names are recorded by the generator", c03r5},
 		},
 	})
@@ -362,4 +363,111 @@ func c03r5(c *Ctx) {
 			"pushDeltaXds/sendDelta/shouldRespondDelta do not maintain WatchedResource.ResourceNames for "+u+" (requiresResourceNamesModification), and its generator "+g.Obj().Name()+" never writes them either: the server's record of what the client holds stays empty, so removed = held - current is always empty (deleted resources are never removed after a reconnect or forced push)")
 	}
 	c.Floor(4)
+}
+
+
+// C03-R4b: for EDS the same boolean decides "the answer may omit watched clusters that did not change" (the partial
+// argument of buildEndpoints) and "treat the answer as a delta" (the usedDelta result of GenerateDeltas). If they can
+// differ, pushDeltaXds computes removals from an answer that is partial and removes clusters the client still needs
+// (or keeps clusters that are gone).
+func c03r4b(c *Ctx) {
+	p := c.P
+	gd := p.Func(pkgXds, "EdsGenerator", "GenerateDeltas")
+	be := p.FuncObj(pkgXds, "EdsGenerator", "buildEndpoints")
+	beFn := p.Func(pkgXds, "EdsGenerator", "buildEndpoints")
+	pidx := -1
+	for i, prm := range beFn.Params {
+		if prm.Name() == "partialPush" {
+			pidx = i
+		}
+	}
+	if pidx < 0 {
+		anchorFail("buildEndpoints has no parameter partialPush")
+	}
+	// the buildEndpoints call: in GenerateDeltas itself, or one level down in a method it delegates to
+	var site ssa.CallInstruction // call in gd that (transitively, one level) reaches buildEndpoints
+	var partial ssa.Value        // the partial argument, expressed in gd's frame when possible
+	translated := true
+	if calls := callsIn(gd, be); len(calls) == 1 {
+		site, partial = calls[0], calls[0].Common().Args[pidx]
+	} else {
+		eachInstr(gd, func(ins ssa.Instruction) {
+			ci, ok := ins.(ssa.CallInstruction)
+			if !ok || site != nil {
+				return
+			}
+			callee := ci.Common().StaticCallee()
+			if callee == nil || funcPkgPath(callee) != istioMod+"/"+pkgXds {
+				return
+			}
+			inner := callsIn(callee, be)
+			if len(inner) != 1 {
+				return
+			}
+			site = ci
+			pv := inner[0].Common().Args[pidx]
+			// translate `f(param_k)` into `f(arg_k)`
+			if call, ok := pv.(*ssa.Call); ok && call.Call.StaticCallee() != nil {
+				partial = pv
+				for _, a := range call.Call.Args {
+					isParam := false
+					for _, prm := range callee.Params {
+						if a == ssa.Value(prm) {
+							isParam = true
+						}
+					}
+					if !isParam {
+						translated = false
+					}
+				}
+			} else {
+				partial, translated = pv, false
+			}
+		})
+	}
+	c.Check("EDS GenerateDeltas reaches buildEndpoints (directly or through one delegate)", gd.Pos(), site != nil,
+		"the check cannot find where GenerateDeltas builds the EDS answer")
+	if site == nil {
+		return
+	}
+	n := 0
+	eachInstr(gd, func(ins ssa.Instruction) {
+		r, ok := ins.(*ssa.Return)
+		if !ok || len(r.Results) < 4 {
+			return
+		}
+		// returns that follow the build
+		if !site.Block().Dominates(r.Block()) {
+			return
+		}
+		n++
+		ud := retVal(r, 3)
+		same := sameValue(ud, partial)
+		if !same {
+			// the same pure call on the same arguments (arguments of a delegate translated positionally)
+			a, ok1 := ud.(*ssa.Call)
+			b, ok2 := partial.(*ssa.Call)
+			if ok1 && ok2 && translated && a.Call.StaticCallee() != nil && a.Call.StaticCallee() == b.Call.StaticCallee() && len(a.Call.Args) == len(b.Call.Args) {
+				same = true
+				callee := site.Common().StaticCallee()
+				for i := range a.Call.Args {
+					want := b.Call.Args[i]
+					if callee != nil && callee != beFn {
+						for k, prm := range callee.Params {
+							if want == ssa.Value(prm) && k < len(site.Common().Args) {
+								want = site.Common().Args[k]
+							}
+						}
+					}
+					if !sameValue(a.Call.Args[i], want) {
+						same = false
+					}
+				}
+			}
+		}
+		c.Check("EDS usedDelta is the partial-answer decision", r.Pos(), same,
+			"GenerateDeltas reports usedDelta from something other than the value that lets buildEndpoints omit unchanged clusters: when the answer is partial but not reported as a delta, pushDeltaXds removes every watched cluster that was not regenerated (the state-of-the-world client keeps them)")
+	})
+	c.Check("EDS GenerateDeltas return after buildEndpoints found", gd.Pos(), n >= 1, "no return after the buildEndpoints call")
+	c.Floor(3)
 }
